@@ -69,7 +69,11 @@ func runC11(c *ctx, via string, vol float64, repeat, freq, peak, sd time.Duratio
 		}
 		rateFn = calc.For
 	} else {
-		rates, err := gaussian.CalculateGaussianRate(vol, 0, repeat, freq, peak, sd, strings.Join(ws, ","), "none")
+		jit := 0.0
+		if via == "rates-jitter" {
+			jit = 80
+		}
+		rates, err := gaussian.CalculateGaussianRate(vol, jit, repeat, freq, peak, sd, strings.Join(ws, ","), "none")
 		if err != nil {
 			tr.Err = err.Error()
 			tr.Panicked = true
@@ -121,6 +125,10 @@ func runC11(c *ctx, via string, vol float64, repeat, freq, peak, sd time.Duratio
 			expect = vol
 		}
 		w.Tol = int64(math.Ceil(1.5*edge*expect + 2 + 1e-6*expect))
+		if via == "rates-jitter" {
+			// with jitter only "requests are never negative" is a per-tick statement (C13 covers the totals)
+			w.Tol, w.PeakV = int64(expect)*3+1000, w.MaxV
+		}
 		tr.Windows = append(tr.Windows, w)
 	}
 	return tr
@@ -158,6 +166,9 @@ func init() {
 			via := "calculator"
 			if k%3 == 0 {
 				via = "rates"
+			}
+			if k%7 == 3 {
+				via = "rates-jitter"
 			}
 			w.write(runC11(c, via, vol, repeat, freq, peak, sd, weights, t0))
 		}
